@@ -310,6 +310,10 @@ func builtinStringSplit(call FunctionCall) Value {
 	}
 
 	if limit == 0 {
+		if !separatorValue.isRegExp() {
+			// 15.5.4.14 step 8 precedes step 9: ToString(separator) is observable.
+			_ = separatorValue.string()
+		}
 		return objectValue(call.runtime.newArray(0))
 	}
 
